@@ -73,7 +73,7 @@ func ruleC03_1(c *Ctx) {
 		fmt.Sprintf("expected one MsgPool.Put in eventloop.cread, found %d", len(puts)))
 	// helper functions called by OnCReact before the enqueue must not enqueue either
 	for _, callee := range p.reachableFuncs(on) {
-		if callee == on || callee == enq || outermost(callee) == on {
+		if callee == on || callee == enq || homeFn(callee) == on {
 			continue
 		}
 		if len(p.callsIn(callee, enq)) > 0 && callee.Pkg != nil && callee.Pkg.Pkg.Path() == pkgServer {
@@ -115,7 +115,7 @@ func ruleC03_2(c *Ctx) {
 	n := 0
 	report := func(what string, in ssa.Instruction) {
 		n++
-		gs := guardsAt(in.Block())
+		gs := guardsOf(in)
 		c.check(guardHas(gs, notDone), "conn.sread: "+what+" after the Done test", c.at(in), "dominated by !f.Done",
 			what+" happens for a fragment that may already be Done (its request was completed by a sibling's error or by a timeout and may have been recycled): a late reply is counted/merged into, or redirects, a request that no longer owns it", withGuards(gs))
 	}
@@ -165,7 +165,7 @@ func ruleC03_3(c *Ctx) {
 	}
 	// flush writes are on the opened edge of the owner
 	for i, w := range p.callsIn(sread, writev) {
-		gs := guardsAt(w.Block())
+		gs := guardsOf(w)
 		recv := strip(w.Common().Args[0])
 		ok := guardHas(gs, func(g Guard) bool {
 			base, isOpened := fieldLoad(g.Cond, opened)
@@ -179,7 +179,7 @@ func ruleC03_3(c *Ctx) {
 		isOpened := p.Method(pkgCore, "conn", "IsOpened")
 		aw := p.Method(pkgCore, "conn", "AsyncWrite")
 		for _, w := range p.callsToAny(mt, aw, p.Method(pkgCore, "conn", "write"), writev) {
-			gs := guardsAt(w.Block())
+			gs := guardsOf(w)
 			ok := guardHas(gs, func(g Guard) bool {
 				_, is := p.isCallTo(g.Cond, isOpened)
 				return is && g.Truth
@@ -190,7 +190,7 @@ func ruleC03_3(c *Ctx) {
 	}
 	// writers of conn.opened
 	for _, w := range p.fieldWrites(opened) {
-		encl := outermost(w.Fn)
+		encl := homeFn(w.Fn)
 		c.touch(encl)
 		val, isConst := w.Val.(*ssa.Const)
 		name := "conn.opened write in " + shortFn(encl)
@@ -212,14 +212,14 @@ func ruleC03_3(c *Ctx) {
 			case *ssa.Alloc:
 				if pt, ok := x.Type().(*types.Pointer); ok && types.Identical(pt.Elem(), connT) {
 					nAlloc++
-					c.check(shortFn(outermost(fn)) == "newTCPConn", "conn allocation in "+shortFn(outermost(fn)), c.at(in), "fresh object per connection",
+					c.check(shortFn(homeFn(fn)) == "newTCPConn", "conn allocation in "+shortFn(homeFn(fn)), c.at(in), "fresh object per connection",
 						"a conn object is created outside newTCPConn")
 				}
 			case *ssa.TypeAssert:
 				// pool.Get().(*conn) would be a recycled connection object
 				if pt, ok := x.AssertedType.(*types.Pointer); ok && types.Identical(pt.Elem(), connT) {
 					if call, ok := x.X.(*ssa.Call); ok && strings.Contains(staticCalleeName(&call.Call), "sync.Pool") {
-						c.bad("pooled conn in "+shortFn(outermost(fn)), c.at(in), "a *conn is taken from a sync.Pool: fragments in flight keep pointing at the object (Frag.Owner) and would deliver to its next user")
+						c.bad("pooled conn in "+shortFn(homeFn(fn)), c.at(in), "a *conn is taken from a sync.Pool: fragments in flight keep pointing at the object (Frag.Owner) and would deliver to its next user")
 					}
 				}
 			}
@@ -252,13 +252,13 @@ func ruleC03_4(c *Ctx) {
 		if s.Fn.Synthetic != "" {
 			continue
 		}
-		encl := outermost(s.Fn)
+		encl := homeFn(s.Fn)
 		c.touch(encl)
 		name := "DequeueInFrag in " + shortFn(encl)
 		switch {
 		case encl == sdec:
 			inDecode++
-			gs := guardsAt(s.Instr.Block())
+			gs := guardsOf(s.Instr)
 			okFrame := guardHas(gs, func(g Guard) bool {
 				x, op, y, ok := cmpGuard(g)
 				if !ok || op != token.EQL || !isNilConst(y) {
@@ -278,7 +278,7 @@ func ruleC03_4(c *Ctx) {
 			// a teardown handler: only reachable from closeConn
 			okOnly := true
 			for _, cs := range p.SitesOf(encl) {
-				if cs.Fn.Synthetic == "" && outermost(cs.Fn) != closeConn {
+				if cs.Fn.Synthetic == "" && homeFn(cs.Fn) != closeConn {
 					okOnly = false
 				}
 			}
@@ -296,7 +296,7 @@ func ruleC03_4(c *Ctx) {
 		if s.Fn.Synthetic != "" {
 			continue
 		}
-		encl := outermost(s.Fn)
+		encl := homeFn(s.Fn)
 		name := "enqueueInFrag in " + shortFn(encl)
 		if encl != hws || s.Call == nil {
 			c.bad(name, c.at(s.Instr), "a fragment enters a connection's in-flight queue outside handleWriteSignal, i.e. not at the moment its bytes are written to that connection: replies are matched against the wrong fragment")
@@ -319,7 +319,7 @@ func ruleC03_5(c *Ctx) {
 	}
 	cconn := p.Named(pkgCore, "CConn")
 	for _, w := range p.fieldWrites(owner) {
-		encl := outermost(w.Fn)
+		encl := homeFn(w.Fn)
 		c.touch(encl)
 		name := "Frag.Owner write in " + shortFn(encl)
 		v := strip(w.Val)
@@ -335,7 +335,7 @@ func ruleC03_5(c *Ctx) {
 	mpGet := p.Method(pkgCore, "msgPool", "Get")
 	pw := p.fieldWrites(peer)
 	for _, w := range pw {
-		encl := outermost(w.Fn)
+		encl := homeFn(w.Fn)
 		c.touch(encl)
 		name := "Frag.Peer write in " + shortFn(encl)
 		v := strip(w.Val)
@@ -348,7 +348,7 @@ func ruleC03_5(c *Ctx) {
 		// the same function files the same fragment under the same request
 		filed := false
 		for _, bw := range p.fieldWrites(body) {
-			if bw.Kind == "mapupdate" && outermost(bw.Fn) == encl && strip(bw.Base) == v && strip(bw.Val) == strip(w.Base) {
+			if bw.Kind == "mapupdate" && homeFn(bw.Fn) == encl && strip(bw.Base) == v && strip(bw.Val) == strip(w.Base) {
 				filed = true
 			}
 		}
@@ -364,7 +364,7 @@ func ruleC03_5(c *Ctx) {
 			continue
 		}
 		for _, w := range p.fieldWrites(f) {
-			encl := outermost(w.Fn)
+			encl := homeFn(w.Fn)
 			name := "conn." + q + " write in " + shortFn(encl)
 			v := strip(w.Val)
 			_, fresh := v.(*ssa.Alloc)
